@@ -369,7 +369,50 @@ def rule_exit_status(ctx, R="C03.2"):
                 cs_ = conditions_to(lp["body"], ps[0]) or []
                 if len(cs_) == 1 and cs_[0][0] == "if" and cs_[0][2] and sgrep.match(sgrep.pattern("self.filters.iter().all(|__f| __f.filter(%s))" % xv), cs_[0][1], {}) and not [x for x in walk(lp["body"]) if x["k"] in ("Break", "Continue", "Return")]:
                     okc = True
-        ctx.check(R, ty + "::filter/conjunction-of-all-filters", okc and "any(" not in t, t[:200], site(WR, ff))
+        decided = eval_filter_fn(ctx, R, ty, ff)
+        if not decided:
+            ctx.check(R, ty + "::filter/conjunction-of-all-filters", okc and "any(" not in t, t[:200], site(WR, ff))
+
+
+def eval_filter_fn(ctx, R, ty, ff):
+    """`<Writer>::filter` evaluated on three reports and two filters for all 64 accept tables: the result must be the
+    reports accepted by every filter, in order, each once.  False when outside the evaluator's subset."""
+    import itertools
+
+    import passeval
+    from finfun import Iter, S, Unsupported
+    from passeval import O, Sink
+
+    try:
+        w = passeval.PassWorld([WR], WR)
+    except Exception:
+        return False
+    fields = w.structs.get(ty)
+    if not fields or "filters" not in fields:
+        return False
+    reports = [O("report%d" % i) for i in range(3)]
+    n = 0
+    bad = None
+    for bits in itertools.product([False, True], repeat=6):
+        table = [bits[0:3], bits[3:6]]
+        filters = ("L", tuple(O("filter%d" % j, filter=("PY", (lambda j: (lambda r: table[j][[k for k, x in enumerate(reports) if x is r][0]]))(j))) for j in range(2)))
+        selfv = S(ty, *[filters if f == "filters" else O("%s.%s" % (ty, f)) for f in fields])
+        try:
+            res = w.call_fn(ff, [selfv, ("L", tuple(reports))])
+        except Unsupported as u:
+            ctx.note("%s::filter is outside the evaluator's subset (%s): shape obligations apply" % (ty, u))
+            return False
+        except passeval.Panic as p_:
+            bad = bad or "panics: %s" % p_
+            continue
+        n += 1
+        got = res.items if isinstance(res, Sink) else (res.rest() if isinstance(res, Iter) else (list(res[1]) if isinstance(res, tuple) and res and res[0] == "L" else None))
+        want = [r for k, r in enumerate(reports) if table[0][k] and table[1][k]]
+        if got is None or len(got) != len(want) or any(a is not b for a, b in zip(got, want)):
+            bad = bad or "accept table %s: returns %s, expected %s" % (table, [x[1] for x in got] if got is not None else res, [x[1] for x in want])
+    ctx.floor(R, ty + "::filter worlds evaluated", n, 64)
+    ctx.check(R, ty + "::filter/conjunction-of-all-filters", bad is None, bad or "for all 64 accept tables of two filters over three reports the result is the reports every filter accepts, in order", site(WR, ff))
+    return True
 
 
 def filter_chain(expr):
@@ -544,7 +587,10 @@ def rule_region(ctx, R="C03.8"):
             r_ = strip(c["recv"])
             if r_["k"] == "Path" and r_["path"] in env:
                 r_ = strip(env[r_["path"]])  # `let storage = files.to_storage();`
-            return (render(r_).replace(" ", ""), tuple(render(strip(a)).replace(" ", "") for a in c["args"]))
+            from pathcond import _subst
+
+            simple = {k_: v_ for k_, v_ in env.items() if strip(v_).get("k") in ("Field", "Path") or (strip(v_).get("k") == "MethodCall" and strip(v_)["method"] in ("clone",) and not strip(v_)["args"])}
+            return (render(r_).replace(" ", ""), tuple(render(strip(_subst(a, simple))).replace(" ", "").replace(".clone()", "") for a in c["args"]))
         return None
 
     builder = None
@@ -573,7 +619,17 @@ def rule_region(ctx, R="C03.8"):
             det += " where %s = location%s" % (a["base"]["path"], lk)
             ok = lk is not None and lk[0].endswith("to_storage()") and lk[1] == ("self.file_id", srcs[var])
         ctx.check(R, "ReportLabel::to_sarif/" + m, ok, det, site(SC, fn))
-    uri = env.get("file_uri")
+    # the artifact uri: the argument of `.uri(..)`, through lets, is `self.file_id.to_uri(files)`
+    from pathcond import _subst as _sb
+
+    simple_ = {k_: v_ for k_, v_ in env.items() if strip(v_).get("k") in ("Field", "Path")}
+    uris = [m_ for m_ in walk(fn["body"]) if m_["k"] == "MethodCall" and m_["method"] == "uri" and len(m_["args"]) == 1]
+    uri = None
+    if len(uris) == 1:
+        uri = strip(uris[0]["args"][0])
+        if uri["k"] == "Path" and uri["path"] in env:
+            uri = strip(env[uri["path"]])
+        uri = _sb(uri, simple_)
     ctx.check(R, "ReportLabel::to_sarif/uri-of-the-label-file", uri is not None and render(strip(uri)).replace(" ", "").startswith("self.file_id.to_uri(files)"), render(uri) if uri else "?", site(SC, fn))
 
 
